@@ -76,8 +76,10 @@ fn populated() -> GrafeoDB {
         let e = db.create_edge(ids[i], ids[i + 1], if i % 2 == 0 { "KNOWS" } else { "LIKES" });
         db.set_edge_property(e, "w", Value::Int64(i64::MAX - i as i64));
     }
-    db.create_edge(ids[5], ids[5], "KNOWS");
-    db.create_edge(ids[5], ids[0], "KNOWS");
+    // a self loop on a node of its own (a cycle through the path would make unbounded
+    // variable-length patterns enumerate exponentially many walks: slow, not a hang)
+    let lp = db.create_node(&["Loop"]);
+    db.create_edge(lp, lp, "KNOWS");
     {
         use grafeo_core::graph::rdf::{Term, Triple};
         let st = db.rdf_store();
@@ -351,6 +353,7 @@ impl Drop for Pool {
 
 include!("c12_seeds.in");
 include!("c12_gen.in");
+include!("c12_main.in");
 
 fn main() {
     let a: Vec<String> = std::env::args().collect();
